@@ -424,12 +424,19 @@ fn build_zones(rng: &mut Rng, sec_ds_ttl: u32) -> (Vec<SZone>, &'static str) {
             tld.insert(child, T_DS, if *child == sec_apex { sec_ds_ttl } else { 3600 }, vec![ds_rdata(child, k)]);
         }
     }
+    // a zone that is an alias as a whole: a DNAME at its apex (NSEC, so that the apex NSEC lists SOA and DNAME together)
+    let alias_apex = nm(&[b"aliaszone"], &tld_apex);
+    let mut alias = base_zone(&alias_apex, true, gen_keys(rng, &GenerateParams::EcdsaP256Sha256), Denial::Nsec);
+    alias.insert(&alias_apex, T_DNAME, 600, vec![sec2_apex.clone()]);
+    tld.insert(&alias_apex, T_NS, 3600, vec![nm(&[b"ns"], &alias_apex)]);
+    tld.insert(&nm(&[b"ns"], &alias_apex), T_A, 3600, vec![vec![192, 0, 2, 56]]);
+    tld.insert(&alias_apex, T_DS, 3600, vec![ds_rdata(&alias_apex, &alias.keys[0].dnskey)]);
     tld.insert(&nm(&[b"plain"], &tld_apex), T_TXT, 300, vec![txt_rd("tld data")]);
     tld.insert(&nm(&[b"zzz"], &tld_apex), T_TXT, 300, vec![txt_rd("sorts last")]);
     root.insert(&tld_apex, T_NS, 3600, vec![nm(&[b"ns"], &tld_apex)]);
     root.insert(&tld_apex, T_DS, 3600, vec![ds_rdata(&tld_apex, &tld.keys[0].dnskey)]);
     root.insert(&nm(&[b"ns"], &tld_apex), T_A, 3600, vec![vec![192, 0, 2, 55]]);
-    (vec![root, tld, sec, ins, odd, sec2], odd_alg)
+    (vec![root, tld, sec, ins, odd, sec2, alias], odd_alg)
 }
 
 fn finish_world(mut zones: Vec<SZone>, odd_alg: &'static str) -> Result<(World, WorldSpec), String> {
@@ -1229,7 +1236,7 @@ fn expected_state(spec: &WorldSpec, zone_index: usize) -> &'static str {
 
 fn queries(world: &World) -> Vec<(Vec<u8>, u16, usize)> {
     let mut v = Vec::new();
-    for (zi, z) in world.zones.iter().enumerate().skip(2) {
+    for (zi, z) in world.zones.iter().enumerate().skip(2).take(4) {
         let a = &z.apex;
         for (labels, t) in [
             (vec![&b"www"[..]], T_A),
@@ -1561,11 +1568,40 @@ fn one_world(c: &mut Ctx, rt: &tokio::runtime::Runtime, fam: &str, idx: u64) {
             }
         }
     }
+    // ---- the same kind of forgery against a zone that is an alias as a whole: NXDOMAIN for a name below a DNAME at the apex,
+    // "proven" with the zone's genuine SOA and apex NSEC (whose bitmap lists SOA and DNAME): every name below is redirected
+    if let Some(az) = world.zones.get(6) {
+        if let (Some(soa), Some(apex_nsec)) = (az.get(&az.apex, T_SOA), az.get(&az.apex, T_NSEC)) {
+            // the chain to the zone is sound: its SOA validates
+            let honest = world.respond(&az.apex, T_SOA);
+            let hw = to_wire(rng.u16(), &az.apex, T_SOA, &honest);
+            let (hs, _) = validate(rt, &world, UpFault::None, idx * 1000 + 997, &hw);
+            if matches!(hs, Out::State("Secure")) {
+                // (a name the apex NSEC itself covers: it sorts before the zone's only other name, ns.<apex>, as does the wildcard)
+                let qname = nm(&[b"a"], &az.apex);
+                let mut r = Resp { rcode: 3, answer: vec![], authority: vec![], kind: "nxdomain", wild: false };
+                push_set(&mut r.authority, soa, None);
+                push_set(&mut r.authority, apex_nsec, None);
+                let wire = to_wire(rng.u16(), &qname, T_A, &r);
+                let (got, _) = validate(rt, &world, UpFault::None, idx * 1000 + 998, &wire);
+                match got {
+                    Out::Panic(pi) => c.violation(&format!("panic:{}", pi.site()), &format!("panic validating a forged denial: {} at {}:{}", pi.msg, pi.file, pi.line), c.replay_of(fam, idx, json!({"zones": denials, "wire": hex(&wire)}))),
+                    Out::State("Secure") => c.violation("secure-despite:forged-nxdomain-below-a-dname-at-the-apex", &format!("NXDOMAIN for {}, a name below the DNAME at the apex of {}, validates as Secure on the strength of the apex NSEC, which lists DNAME", w::name_text(&qname), w::name_text(&az.apex)), c.replay_of(fam, idx, json!({"zones": denials, "wire": hex(&wire)}))),
+                    _ => {
+                        c.count("forged_denials_below_an_apex_dname_rejected", 1);
+                        c.eval(&("forged-denial", 6usize));
+                    }
+                }
+            } else {
+                c.count("alias_zone_chain_not_secure", 1);
+            }
+        }
+    }
     // ---- a genuine, validly signed wildcard RRset replayed as the answer for a name it does not cover: x.host.w.<zone>
     // lies below the existing name host.w.<zone>, so its closest encloser is that name and not the wildcard's parent; the
     // truthful answer is NXDOMAIN. The proof that the name itself does not exist is genuine too.
     ctx::step("replayed wildcard");
-    for zi in 2..world.zones.len() {
+    for zi in 2..6 {
         let z = &world.zones[zi];
         if !z.signed || expected_state(&spec, zi) != "Secure" {
             continue;
@@ -1993,7 +2029,7 @@ pub fn run(c: &mut Ctx) {
         one_world(c, &rt, fam, idx);
     }
     if !c.replaying() {
-        for k in ["honest:positive", "honest:wildcard", "honest:nodata", "honest:nodata-ent", "honest:nodata-wildcard", "honest:nxdomain", "honest:cname", "damaged:corrupt-signature", "damaged:drop-proof", "damaged:expired", "upstream:corrupt-signature", "upstream:servfail", "rollover_withdrawn_key_refused", "expired_after_first_validation_refused", "replayed_wildcards_rejected", "forged_denials_rejected", "context_reuse_cases", "client_transport_responses", "client_transport_ad_set_after_validation", "client_transport_upstream_ad_claim_with_cd_request"] {
+        for k in ["honest:positive", "honest:wildcard", "honest:nodata", "honest:nodata-ent", "honest:nodata-wildcard", "honest:nxdomain", "honest:cname", "damaged:corrupt-signature", "damaged:drop-proof", "damaged:expired", "upstream:corrupt-signature", "upstream:servfail", "rollover_withdrawn_key_refused", "expired_after_first_validation_refused", "replayed_wildcards_rejected", "forged_denials_rejected", "forged_denials_below_an_apex_dname_rejected", "context_reuse_cases", "client_transport_responses", "client_transport_ad_set_after_validation", "client_transport_upstream_ad_claim_with_cd_request"] {
             c.floor(k, 3);
         }
     }
